@@ -47,11 +47,14 @@ func genTable(r *lib.Rng, idx int, maxRows int, domain int) table {
 	for i := 0; i < n; i++ {
 		row := make([]octosql.Value, 3)
 		for j := 0; j < 2; j++ {
-			if i > 0 && r.Chance(1, 2+2*domain) {
+			if i > 0 && r.Chance(1, 5) {
 				row[j] = octosql.NewNull()
 			} else {
 				row[j] = octosql.NewFloat(float64(r.Intn(domain)))
 			}
+		}
+		if i > 0 && r.Chance(1, 10) { // a row whose key columns are all NULL
+			row[0], row[1] = octosql.NewNull(), octosql.NewNull()
 		}
 		switch {
 		case i > 0 && r.Chance(1, 5):
@@ -323,7 +326,10 @@ func main() {
 			if st.kind >= 1 && st.kind <= 3 {
 				hasOuter = true
 			}
-			nk := []int{1, 1, 1, 2, 2, 3}[r.Intn(6)]
+			nk := []int{1, 1, 2, 2, 2, 3}[r.Intn(6)]
+			// with two or more equalities the first two cover both key columns of this table and two different
+			// key columns on the other side (multi-column keys, where a row can have NULL in several key columns)
+			lt0, lc0, rc0 := r.Intn(ti), r.Intn(2), r.Intn(2)
 			if i == 0 {
 				nk = 1
 			}
@@ -331,6 +337,9 @@ func main() {
 				// equality between a key column of an earlier table and a key column of this table
 				li := r.Intn(ti)*3 + r.Intn(2)
 				rj := width + r.Intn(2)
+				if nk >= 2 && k < 2 {
+					li, rj = lt0*3+(lc0+k)%2, width+(rc0+k)%2
+				}
 				if i == 0 {
 					li, rj = 0, 3
 				}
